@@ -46,6 +46,6 @@ Definition dispatch (f : Z) (x : sx) : sx :=
   | 1003 => ConnectorX.x_conn_run_old x
   | 900 => SamplingX.x_pipeline x | 901 => SamplingX.x_loop x | 902 => SamplingX.x_sim x | 903 => SamplingX.x_repair x
   | 904 => SamplingX.x_pyround x | 905 => SamplingX.x_hist x | 906 => SamplingX.x_samples_conv x
-  | 907 => SamplingX.x_count_to_probs x
+  | 907 => SamplingX.x_count_to_probs x | 912 => SamplingX.x_sim_old_code x | 908 => SamplingX.x_scale x
   | _ => L []
   end%Z.
